@@ -32,7 +32,8 @@ ASSUMPTIONS = [
 ]
 
 KEY_ALPHABET = "abcdefghijklmnopqrstuvwxyzABCXYZ0123456789_-. {}ëß中\U0001F98A"
-STR_ALPHABET = "abcXYZ 0123456789\\:/-_.{}äöü€\U0001F600中"
+# incl. the code units that double as byte-order marks (U+FEFF, U+FFFE): values are UTF-16-LE whatever they start with
+STR_ALPHABET = "abcXYZ 0123456789\\:/-_.{}äöü€\U0001F600中\ufeff\ufffe"
 
 
 def budget(tier):
@@ -52,6 +53,8 @@ def leaf(draw):
     elif t == "string":
         n = draw(st.sampled_from([0, 1, 8, 36, 36, 100, 1023, 1024, 1025, 3000]))
         v = draw(st.text(alphabet=STR_ALPHABET, min_size=min(n, 3), max_size=n)) if n < 200 else (draw(st.text(alphabet=STR_ALPHABET, min_size=1, max_size=8)) * n)[:n]
+        if n and draw(st.integers(0, 7)) == 0:
+            v = draw(st.sampled_from(["\ufeff", "\ufffe"])) + v[1:]
     elif t == "array":
         n = draw(st.sampled_from([0, 1, 16, 100, 2047, 2048, 2049, 6000]))
         v = bytes((i * 7 + n) & 0xFF for i in range(n)).hex()
